@@ -1234,6 +1234,7 @@ class Reaction(Object):
         """
         old_coefficients = self.metabolites
         new_metabolites = []
+        added = {}
         _id_to_metabolites = dict([(x.id, x) for x in self._metabolites])
 
         # Identifiers have to be resolvable before anything is changed.
@@ -1265,6 +1266,9 @@ class Reaction(Object):
                     self._metabolites[reaction_metabolite] += coefficient
                 else:
                     self._metabolites[reaction_metabolite] = coefficient
+                added[reaction_metabolite] = (
+                    added.get(reaction_metabolite, 0) + coefficient
+                )
             else:
                 # If the reaction is in a model, ensure we aren't using
                 # a duplicate metabolite.
@@ -1285,6 +1289,7 @@ class Reaction(Object):
                         f"instead of strings as keys."
                     )
                 self._metabolites[metabolite] = coefficient
+                added[metabolite] = coefficient
                 # make the metabolite aware that it is involved in this
                 # reaction
                 metabolite._reaction.add(self)
@@ -1316,7 +1321,7 @@ class Reaction(Object):
                 context(
                     partial(
                         self.subtract_metabolites,
-                        metabolites_to_add,
+                        added,
                         combine=True,
                         reversibly=False,
                     )
